@@ -205,12 +205,13 @@ impl<'a> Evaluator<'a> {
         &self,
         states: &mut [AggState],
         values: impl Iterator<Item = DataValue>,
-    ) {
+    ) -> Result<(), ConvertError> {
         let list = self.node().as_list();
         for ((state, id), value) in states.iter_mut().zip(list).zip(values) {
             let s = std::mem::take(state);
-            *state = self.next(*id).agg_append(s, value);
+            *state = self.next(*id).agg_append(s, value)?;
         }
+        Ok(())
     }
 
     /// Consume a list of agg states and return their results.
@@ -234,9 +235,9 @@ impl<'a> Evaluator<'a> {
         use Expr::*;
         Ok(match state {
             AggState::Value(state) => AggState::Value(match self.node() {
-                RowCount => state.add(DataValue::Int32(chunk.cardinality() as _)),
-                Count(a) => state.add(DataValue::Int32(self.next(*a).eval(chunk)?.count() as _)),
-                Sum(a) => state.add(self.next(*a).eval(chunk)?.sum()),
+                RowCount => state.add(DataValue::Int32(chunk.cardinality() as _))?,
+                Count(a) => state.add(DataValue::Int32(self.next(*a).eval(chunk)?.count() as _))?,
+                Sum(a) => state.add(self.next(*a).eval(chunk)?.sum()?)?,
                 Min(a) => state.min(self.next(*a).eval(chunk)?.min_()),
                 Max(a) => state.max(self.next(*a).eval(chunk)?.max_()),
                 First(a) => state.or(self.next(*a).eval(chunk)?.first()),
@@ -260,16 +261,16 @@ impl<'a> Evaluator<'a> {
     }
 
     /// Append a value to agg state.
-    fn agg_append(&self, state: AggState, value: DataValue) -> AggState {
+    fn agg_append(&self, state: AggState, value: DataValue) -> Result<AggState, ConvertError> {
         use Expr::*;
         if let Over([window, _, _]) = self.node() {
             return self.next(*window).agg_append(state, value);
         }
-        match state {
+        Ok(match state {
             AggState::Value(state) => AggState::Value(match self.node() {
-                RowCount | RowNumber => state.add(DataValue::Int32(1)),
-                Count(_) => state.add(DataValue::Int32(!value.is_null() as _)),
-                Sum(_) => state.add(value),
+                RowCount | RowNumber => state.add(DataValue::Int32(1))?,
+                Count(_) => state.add(DataValue::Int32(!value.is_null() as _))?,
+                Sum(_) => state.add(value)?,
                 Min(_) => state.min(value),
                 Max(_) => state.max(value),
                 First(_) => state.or(value),
@@ -282,7 +283,7 @@ impl<'a> Evaluator<'a> {
                 }
                 AggState::DistinctValue(values)
             }
-        }
+        })
     }
 
     /// Returns a list of bools for order keys.
@@ -324,21 +325,27 @@ impl AggState {
     }
 }
 
-trait Ext {
-    fn add(self, other: Self) -> Self;
+trait Ext: Sized {
+    fn add(self, other: Self) -> Result<Self, ConvertError>;
     fn or(self, other: Self) -> Self;
 }
 
 impl Ext for DataValue {
-    fn add(self, other: Self) -> Self {
-        // SQL aggregates skip NULL inputs: a NULL must not reset the running sum
-        if self.is_null() {
-            other
-        } else if other.is_null() {
-            self
-        } else {
-            self + other
-        }
+    /// Adds a value to a running sum or count. An overflow is an error.
+    fn add(self, other: Self) -> Result<Self, ConvertError> {
+        use DataValue::*;
+        let overflow = || ConvertError::OutOfRange("sum");
+        Ok(match (self, other) {
+            // SQL aggregates skip NULL inputs: a NULL must not reset the running sum
+            (Null, other) => other,
+            (this, Null) => this,
+            (Int16(x), Int16(y)) => Int16(x.checked_add(y).ok_or_else(overflow)?),
+            (Int32(x), Int32(y)) => Int32(x.checked_add(y).ok_or_else(overflow)?),
+            (Int64(x), Int64(y)) => Int64(x.checked_add(y).ok_or_else(overflow)?),
+            (Decimal(x), Decimal(y)) => Decimal(x.checked_add(y).ok_or_else(overflow)?),
+            (Interval(x), Interval(y)) => Interval(x + y),
+            (this, other) => this + other,
+        })
     }
 
     fn or(self, other: Self) -> Self {
